@@ -35,6 +35,7 @@ XInit(t) ==
       fatal |-> FALSE, tags |-> {}, rkinds |-> {},
       cancelReq |-> FALSE, cancelRet |-> FALSE, cancelT |-> -1,
       cancelEarly |-> FALSE, cancelHow |-> "",
+      annBegun |-> FALSE, cancelTried |-> FALSE,
       finalSeen |-> FALSE, finalBeforeCancel |-> FALSE, resChanged |-> FALSE,
       override |-> t.override,
       q |-> [s \in 1..t.nsubs |-> 0], d |-> [s \in 1..t.nsubs |-> 0],
@@ -66,6 +67,8 @@ InitObs(meta) ==
       shutdown |-> FALSE, afterShutdown |-> {}, undoneAtShutdown |-> FALSE,
       shutIdx |-> 0, shutBad |-> FALSE,
       cancelAll |-> FALSE, cancelAllHow |-> "", cancelRaised |-> FALSE,
+      entryOpen |-> FALSE, entryPending |-> FALSE, entryCtl |-> FALSE, entrySkipped |-> FALSE,
+      ctlNeed |-> {}, ctlMissed |-> FALSE, kbiWait |-> FALSE, kbiSkipped |-> FALSE,
       stuck |-> "", ended |-> FALSE, permsBad |-> FALSE, finalBad |-> <<>>,
       n |-> 0 ]
 
@@ -342,16 +345,47 @@ Addressed(o, ev, j) ==
     IF ev.x >= 0 THEN j = ev.x + 1
     ELSE o.x[j].call = "returned" /\ o.x[j].res = "none"
 
+\* transfers the manager still tracks: submitted and not yet announcing
+Pending(o, j) == o.x[j].call = "returned" /\ ~o.x[j].annBegun
+\* the entry points that cancel everything (shutdown(cancel=True), leaving the with-block
+\* through an exception or Ctrl-C)
+EntryAll(ev) == ev.x < 0 /\ ev.how \in {"shutdown", "exit-exc", "exit-kbi"}
+
 CancelCall(o0, ev) ==
     [o0 EXCEPT !.cancelAll = @ \/ (ev.x < 0),
                !.cancelAllHow = IF ev.x < 0 THEN ev.how ELSE @,
+               !.entryOpen = IF EntryAll(ev) THEN TRUE ELSE @,
+               !.entryCtl = IF EntryAll(ev) THEN FALSE ELSE @,
+               !.entryPending = IF EntryAll(ev) THEN \E j \in DOMAIN o0.x : Pending(o0, j) ELSE @,
                !.x = [j \in DOMAIN o0.x |->
                         IF Addressed(o0, ev, j)
                         THEN [o0.x[j] EXCEPT !.cancelReq = TRUE,
+                                !.cancelTried = IF ev.x >= 0 THEN TRUE ELSE @,
                                 !.cancelHow = IF @ = "" THEN ev.how ELSE @]
                         ELSE o0.x[j]]]
 
-CancelRet(o0, ev) ==
+\* the controller's cancel-everything loop: every transfer still tracked when it starts
+\* must have been handed the cancel when it ends
+CtlCancelBegin(o0) ==
+    [o0 EXCEPT !.entryCtl = TRUE, !.kbiWait = FALSE,
+               !.ctlNeed = {j \in DOMAIN o0.x : Pending(o0, j)},
+               !.x = [j \in DOMAIN o0.x |-> [o0.x[j] EXCEPT !.cancelTried = FALSE]]]
+CtlCancelEnd(o0) ==
+    \* (a transfer that began to announce meanwhile may have left the tracked set before
+    \*  the loop took its copy)
+    [o0 EXCEPT !.ctlMissed = @ \/ (\E j \in o0.ctlNeed : ~o0.x[j].cancelTried /\ ~o0.x[j].annBegun),
+               !.ctlNeed = {}]
+\* Ctrl-C ended the wait inside shutdown(): the manager must cancel everything before
+\* shutdown() is left
+CtlWaitKbi(o0) == [o0 EXCEPT !.kbiWait = \E j \in DOMAIN o0.x : Pending(o0, j)]
+ObsAnnBegin(o0, ev) ==
+    IF ~Known(o0, ev.x) THEN o0 ELSE [o0 EXCEPT !.x[ev.x + 1].annBegun = TRUE]
+
+CancelRet(o00, ev) ==
+    LET o0 == IF ev.x < 0 /\ o00.entryOpen
+              THEN [o00 EXCEPT !.entryOpen = FALSE,
+                               !.entrySkipped = @ \/ (o00.entryPending /\ ~o00.entryCtl)]
+              ELSE o00 IN
     IF ~ev.ok THEN [o0 EXCEPT !.cancelRaised = TRUE] ELSE
     [o0 EXCEPT !.x = [j \in DOMAIN o0.x |->
                         IF Addressed(o0, ev, j) /\ ~o0.x[j].doneBegun
@@ -388,6 +422,7 @@ DoneFlip(o0, ev) ==
 
 Shutdown(o0, ev) ==
     [o0 EXCEPT !.shutdown = TRUE,
+               !.kbiSkipped = @ \/ o0.kbiWait, !.kbiWait = FALSE,
                !.undoneAtShutdown = \E j \in DOMAIN o0.x :
                    o0.x[j].call = "returned" /\ ~o0.x[j].flip]
 
@@ -465,6 +500,10 @@ Apply(o0, ev) ==
       [] ev.e = "Status" -> StatusEv(o, ev)
       [] ev.e = "CancelCall" -> CancelCall(o, ev)
       [] ev.e = "CancelRet" -> CancelRet(o, ev)
+      [] ev.e = "CtlCancelBegin" -> CtlCancelBegin(o)
+      [] ev.e = "CtlCancelEnd" -> CtlCancelEnd(o)
+      [] ev.e = "CtlWaitKbi" -> CtlWaitKbi(o)
+      [] ev.e = "AnnBegin" -> ObsAnnBegin(o, ev)
       [] ev.e = "ResultAgain" -> ResultAgain(o, ev)
       [] ev.e = "ResultEnd" -> ResultEnd(o, ev)
       [] ev.e = "Fault" -> Fault(o, ev)
